@@ -266,7 +266,7 @@ func (m *Model) refresh(p *Pred, sym, input string) (string, *stepErr) {
 	m.Calls[sym]++
 	p.Events = append(p.Events, Ev{Kind: "call", Sym: sym, Lang: m.evLang, Input: input, LangUnknown: m.LangUnknown})
 	r := f.Result(m.Calls[sym], []byte(input), m.evLang)
-	if m.LangUnknown && f.Kind == "idlang" {
+	if m.LangUnknown && (f.Kind == "idlang" || f.Kind == "static" && len(f.Trans) > 0) {
 		// the language was "reset" with an empty code: what a language-dependent function is called with is
 		// don't-care, and so is everything that depends on its result
 		p.valueUnknown = true
